@@ -6,6 +6,7 @@ use crate::stat::*;
 use fnv::FnvHasher;
 use probminhash::jaccard::get_jaccard_index_estimate;
 use probminhash::setsketcher::{SetSketchParams, SetSketcher};
+use rand::Rng as _;
 use rayon::prelude::*;
 use serde_json::json;
 
@@ -88,7 +89,7 @@ fn trial_fraction<const U16: bool>(params: SetSketchParams, n0: usize, n1: usize
 
 pub fn run(rep: &mut Report) {
     quiet_panics();
-    rep.rule = "S: cell = (b, m, register type, |A∩B|, |A\\B|, |B\\A|) with a, q as documented; per trial fresh items, both sets sketched by the real code, statistic = jaccard::get_jaccard_index_estimate of the two signatures, target = exact per-register collision probability of the model (three exponentials, register intervals, clipping at 0 and at min(q+1, I::MAX)); staged z-test. E(i): grid of cardinality triples x b: model p -> get_jaccard_bounds(p) must bracket J within 1e-4. E(ii): get_jaccard_bounds on EVERY fraction D/m for all m <= M (exhaustive for the sketch sizes covered) and near both ends for m in {4096, 65536, 1e6}, under catch_unwind: returns, and low <= high + 8*2^-52/(b-1). Distinct = cells / (b, D, m) points; non-trivial: 0 < p < 1".into();
+    rep.rule = "S: cell = (b, m, register type, |A∩B|, |A\\B|, |B\\A|) with a, q as documented; per trial fresh items, both sets sketched by the real code, statistic = jaccard::get_jaccard_index_estimate of the two signatures, target = exact per-register collision probability of the model (three exponentials, register intervals, clipping at 0 and at min(q+1, I::MAX)); staged z-test. E(i): grid of cardinality triples x b (18 fixed values, b-1 log-spaced by quarter decades over [1e-5,1], seeded random b): model p -> get_jaccard_bounds(p) must bracket J within 1e-4. E(ii): get_jaccard_bounds on EVERY fraction D/m for all m <= M (exhaustive for the sketch sizes covered) and near both ends for m in {4096, 65536, 1e6}, under catch_unwind: returns, and low <= high + 8*2^-52/(b-1). Distinct = cells / (b, D, m) points; non-trivial: 0 < p < 1".into();
     // ---------------- S
     let t1: u64 = rep.tier.pick(3000, 30_000);
     let shapes: Vec<(&str, usize, usize, usize)> = vec![
@@ -158,11 +159,26 @@ pub fn run(rep: &mut Report) {
     // ---------------- E (i): bounds bracket J on a grid
     if rep.want("bracket") {
         let mut pts = Vec::new();
-        for &b in &[1.0001, 1.001, 1.01, 1.1, 1.5, 2.0] {
+        // b: fixed values, a log-spaced grid of b-1 over [1e-5, 1] (quarter decades, so that any threshold of a piecewise formula has
+        // grid points just below it), values just below round thresholds, and seeded random ones
+        let mut bgrid: Vec<f64> = vec![1.0001, 1.001, 1.01, 1.1, 1.5, 2.0, 1.05, 1.09, 1.099, 1.0999, 1.2, 1.25, 1.3, 1.49, 1.75, 1.9, 1.99, 1.999];
+        for k in 0..=20 {
+            bgrid.push(1. + 10f64.powf(-(k as f64) / 4.));
+        }
+        let mut brng = rng_from(subseed(rep.seed, "C07/bracket-b", &[]));
+        for _ in 0..rep.tier.pick(24, 400) {
+            bgrid.push(1. + 10f64.powf(brng.random_range(-5.0..0.0)));
+        }
+        let budget: f64 = rep.tier.pick(1.5e8, 3e9);
+        for &b in &bgrid {
+            // the model sums about 70/ln(b) register intervals per point: for b very close to 1 a seeded subsample of the grid is used
+            let keep = (budget / (1764. * 70. / b.ln())).min(1.);
             for &ntot in &[10.0f64, 1e3, 1e5, 1e7] {
                 for i0 in 0..=20u64 {
                     for i1 in 0..=20u64 {
-                        pts.push((b, ntot, i0, i1));
+                        if keep >= 1. || (mix(&[b.to_bits(), ntot.to_bits(), i0, i1, rep.seed]) >> 11) as f64 / (1u64 << 53) as f64 <= keep {
+                            pts.push((b, ntot, i0, i1));
+                        }
                     }
                 }
             }
